@@ -74,22 +74,30 @@ def settings_for(refres, tier, rng, directed=False):
     plus three settings drawn among {BeFS, max-errors>0}; thorough tier: the full matrix."""
     out = []
     small = refres["paths"] is not None and refres["paths"] <= (400 if tier == "quick" else 3000)
+    # with max-errors>0 the exploration goes on after an error: only on programs whose full exploration is affordable
+    multi = refres["paths"] is not None and refres["paths"] <= 20000
     reds = list(REDUCTIONS) + (["none"] if small else [])
     for r in reds:
         out.append({"reduction": r, "explorer": "DFS", "max_errors": 0})
     if tier != "quick":
         for r in reds:
             out.append({"reduction": r, "explorer": "BeFS", "max_errors": 0})
-            out.append({"reduction": r, "explorer": "DFS", "max_errors": 3})
-        out.append({"reduction": "odpor", "explorer": "BeFS", "max_errors": 3})
+            out.append({"reduction": r, "explorer": "DFS", "max_errors": 3 if multi else 0})
+        out.append({"reduction": "odpor", "explorer": "BeFS", "max_errors": 3 if multi else 0})
         if small:
             out.append({"reduction": "udpor", "explorer": "DFS", "max_errors": 0})
     else:
         out.append({"reduction": rng.choice(reds), "explorer": "BeFS", "max_errors": 0})
-        out.append({"reduction": rng.choice(reds), "explorer": "DFS", "max_errors": rng.choice([1, 3, 8])})
+        out.append({"reduction": rng.choice(reds), "explorer": "DFS", "max_errors": rng.choice([1, 3, 8]) if multi else 0})
         if rng.random() < 0.3:
-            out.append({"reduction": rng.choice(reds), "explorer": "BeFS", "max_errors": 2})
-    return out
+            out.append({"reduction": rng.choice(reds), "explorer": "BeFS", "max_errors": 2 if multi else 0})
+    seen, uniq = set(), []
+    for st in out:
+        k = tuple(sorted(st.items()))
+        if k not in seen:
+            seen.add(k)
+            uniq.append(st)
+    return uniq
 
 
 # Settings under which the open known findings are re-found on every run (program name of gen/mcprog_cex.DIRECTED, setting)
